@@ -142,6 +142,10 @@ class ExternalCase(Case):
             e = st["evals"]
             st["evals"] += 1
             if e == raise_at:
+                if self.abort_kind == "aborted":   # ropt's own callback stops the run (max_functions, user abort, too few realizations)
+                    from ropt.enums import OptimizerExitCode
+                    from ropt.exceptions import OptimizationAborted
+                    raise OptimizationAborted(exit_code=OptimizerExitCode.MAX_FUNCTIONS_REACHED)
                 raise CallbackError("evaluator failed")
             return np.array([1.0 + e]), (np.array([[0.5, e]]) if return_gradients else np.array([]))
 
@@ -183,7 +187,11 @@ class ExternalCase(Case):
         child_error = any(isinstance(m, dict) and "error" in m for m in self.msgs[: st["sent"]])
         props = []
         if callback_raised and not died:
-            props.append(("evaluator_exception_is_propagated", SB(isinstance(raised, CallbackError))))
+            if self.abort_kind == "aborted":
+                from ropt.exceptions import OptimizationAborted
+                props.append(("abort_of_the_callback_is_propagated", SB(isinstance(raised, OptimizationAborted))))
+            else:
+                props.append(("evaluator_exception_is_propagated", SB(isinstance(raised, CallbackError))))
         elif child_error and not died:
             props.append(("child_error_is_raised", SB(isinstance(raised, RuntimeError))))
         elif died:
@@ -335,6 +343,7 @@ def build_cases(tier):
     add(nevals=1)
     add(nevals=2, error_at=1)
     add(nevals=2, error_at=0)
+    add(nevals=2, abort_kind="aborted")     # ropt's own abort (budget, user abort) raised on the parent side
     k += 1
     cases.append(ChildCase(f"c20-{k:03d}"))
     for method, par in (("slsqp", False), ("differential_evolution", False), ("differential_evolution", True), ("scipy/nelder-mead", False)):
@@ -348,7 +357,7 @@ def build_cases(tier):
 
 
 META = dict(
-    bounds={"quick": "protocols of 3-4 messages (config, initial values, 1-2 evaluations or a child error); the child dies after any number of exchanged messages with return code 1, -9 or 3, or never; the callback raises at any evaluation or never; 0-2 failed writes and 0-1 empty reads per message",
+    bounds={"quick": "protocols of 3-4 messages (config, initial values, 1-2 evaluations or a child error); the child dies after any number of exchanged messages with return code 1, -9 or 3, or never; the callback raises (its own exception, or ropt's OptimizationAborted) at any evaluation or never; 0-2 failed writes and 0-1 empty reads per message",
             "thorough": "4 evaluations",
             "outside": "trace equality with in-process runs; real FIFOs, signals and timing; hangs beyond 400 polls"},
     stubs=["subprocess.Popen / process.poll / wait: follow the symbolic life schedule", "_JSONPipeCommunicator: read() hands out the scripted protocol messages, write() succeeds after a symbolic number of failures",
